@@ -158,6 +158,30 @@ theorem C14_manager_steps {W : Type} (round : W → ModelId → Res W) (es : Boo
             simp [List.dropLast, hm, this]
         · intro hes; simp [ih.2.2 hes]
 
+/-- **C14_manager_pass_modified**: the same at the level of pass expressions: a successful
+    `PassManager(ps, steps, early_stop)(model)` reports the disjunction of the flags of the rounds
+    (`Sequential.call` of `ps`) it executed. -/
+theorem C14_manager_pass_modified {W : Type} (cl : W → ModelId → W × ModelId) (ps : List (Pass W))
+    (steps : Nat) (es : Bool) (w w' : W) (m : ModelId) (r : PassResult)
+    (h : (Pass.mgr ps steps es).run cl w m = (w', .ok r)) :
+    r.modified = (mgrLoop (fun w m => runSeq cl ps w m false) es steps w m false).2.2.any id := by
+  simp only [Pass.run] at h
+  obtain ⟨⟨w1, w2, h1, h2, _⟩, _⟩ := guard_ok h
+  simp only [noHook, Prod.mk.injEq] at h1
+  obtain ⟨rfl, _⟩ := h1
+  simp only [mgrCall] at h2
+  cases hl : mgrLoop (fun w m => runSeq cl ps w m false) es steps w m false with
+  | mk a b =>
+    cases b with
+    | mk res fl =>
+      rw [hl] at h2
+      cases res with
+      | error e => simp [toCallRet] at h2
+      | ok r' =>
+        simp only [toCallRet, Prod.mk.injEq, CallRet.result.injEq] at h2
+        obtain ⟨rfl, rfl⟩ := h2
+        simpa using C14_manager_modified _ es steps w a m false r' fl hl
+
 /-! ## fixpoint: bounded number of rounds -/
 
 /-- **C14_rounds**: let `μ` be a natural-number measure of the model that strictly decreases over
@@ -495,7 +519,96 @@ theorem C14_rm_init_measure (site : Nat × Nat) (s s' : St) (h : rmRw site s = s
       omega
     · simp at h
 
+/-- **C14_rm_init_contract**: RemoveInitializersFromInputsPass (as transcribed) reports `False` only
+    if the inputs are unchanged, strictly shrinks the inputs when it reports `True`, and a
+    PassManager with `early_stop` around it stops within `#inputs + 1` rounds in a state on which
+    the pass reports `False` and changes nothing. -/
+theorem C14_rm_init_contract (s : St) :
+    ((removeInitializersFromInputs s).2 = false → (removeInitializersFromInputs s).1 = s) ∧
+    ((removeInitializersFromInputs s).2 = true → rmSize (removeInitializersFromInputs s).1 < rmSize s) ∧
+    ∀ (n : Nat) (m : ModelId),
+      let round : St → ModelId → Res St := fun s m =>
+        ((removeInitializersFromInputs s).1, .ok ⟨m, (removeInitializersFromInputs s).2⟩)
+      (mgrLoop round true n s m false).2.2.length ≤ rmSize s + 1 ∧
+      ∀ s' r fl, rmSize s < n → mgrLoop round true n s m false = (s', .ok r, fl) →
+        removeInitializersFromInputs s' = (s', false) :=
+  ⟨C14_counting_flag rmSites rmRw s,
+   (C14_counting_measure rmSites rmRw rmSize C14_rm_init_measure s).1,
+   fun n m => C14_counting_rounds rmSites rmRw rmSize C14_rm_init_measure n s m⟩
+
+/-- **C14_add_init_flag**: AddInitializersToInputsPass (as transcribed) reports `False` only if the
+    inputs are unchanged. -/
+theorem C14_add_init_flag (s : St) (h : (addInitializersToInputs s).2 = false) :
+    (addInitializersToInputs s).1 = s := C14_counting_flag addSites addRw s h
+
 end InitInputs
+
+/-! ## RemoveUnusedNodesPass (graph without subgraphs) -/
+namespace Dce
+
+theorem trimmed_length_le (l : List (Option Nat)) : (trimmed l).length ≤ l.length := by
+  simp only [trimmed, List.length_reverse]
+  exact Nat.le_trans (List.dropWhile_sublist _).length_le (by simp)
+
+/-- **C14_dce_measure**: every rewrite of RemoveUnusedNodesPass (removing a dead node, trimming
+    trailing `None` inputs, removing an unused initializer) strictly decreases
+    nodes + initializers + input slots. -/
+theorem C14_dce_measure (site : Site) (s s' : St) (h : rw site s = some s') : size s' < size s := by
+  cases site with
+  | node id =>
+    simp only [rw] at h
+    split at h
+    · simp at h
+    · next n hn =>
+      have hmem : n ∈ s.nodes := List.mem_of_find?_eq_some hn
+      have hid : (n.id == id) = true := List.find?_some (p := fun n : Node => n.id == id) hn
+      split at h
+      · simp only [Option.some.injEq] at h; subst h
+        have h1 := length_filter_lt (fun m : Node => m.id != id) s.nodes n hmem (by simpa using hid)
+        have h2 := sum_map_filter_le (fun m : Node => m.inputs.length) (fun m : Node => m.id != id) s.nodes
+        simp only [size]; omega
+      · split at h
+        · next hlt =>
+          simp only [Option.some.injEq] at h; subst h
+          have hle : ∀ x : Node, (fun m : Node => m.inputs.length)
+              ((fun m : Node => if m.id == id then { m with inputs := trimmed m.inputs } else m) x) ≤
+              (fun m : Node => m.inputs.length) x := by
+            intro x; simp only; split
+            · exact trimmed_length_le x.inputs
+            · exact Nat.le_refl _
+          have := sum_map_map_lt (fun m : Node => m.inputs.length) _ hle s.nodes n hmem
+            (by simp only [hid, if_true]; exact hlt)
+          simp only [size, List.length_map]; omega
+        · simp at h
+  | init v =>
+    simp only [rw] at h
+    split at h
+    · next hc =>
+      simp only [Option.some.injEq] at h; subst h
+      simp only [Bool.and_eq_true] at hc
+      have hm : v ∈ s.inits := by simpa using hc.1.1.1
+      have : 0 < s.inits.length := List.length_pos_of_mem hm
+      simp only [size, List.length_erase_of_mem hm]; omega
+    · simp at h
+
+/-- **C14_dce_contract**: RemoveUnusedNodesPass (as transcribed, graphs without subgraphs, without
+    the schema-driven optional-output removal) reports `False` only if the graph is unchanged,
+    strictly shrinks it when it reports `True`, and a PassManager with `early_stop` around it stops
+    within `size + 1` rounds in a state on which the pass reports `False` and changes nothing. -/
+theorem C14_dce_contract (s : St) :
+    ((removeUnusedNodes s).2 = false → (removeUnusedNodes s).1 = s) ∧
+    ((removeUnusedNodes s).2 = true → size (removeUnusedNodes s).1 < size s) ∧
+    ∀ (n : Nat) (m : ModelId),
+      let round : St → ModelId → Res St := fun s m =>
+        ((removeUnusedNodes s).1, .ok ⟨m, (removeUnusedNodes s).2⟩)
+      (mgrLoop round true n s m false).2.2.length ≤ size s + 1 ∧
+      ∀ s' r fl, size s < n → mgrLoop round true n s m false = (s', .ok r, fl) →
+        removeUnusedNodes s' = (s', false) :=
+  ⟨C14_counting_flag sites rw s,
+   (C14_counting_measure sites rw size C14_dce_measure s).1,
+   fun n m => C14_counting_rounds sites rw size C14_dce_measure n s m⟩
+
+end Dce
 
 /-! ## TopologicalSortPass flag -/
 
@@ -617,6 +730,13 @@ example : (ClearMeta.pass (ClearMeta.pass exCM).1).2 = false := by decide
 -- sort flag: the length hypothesis holds for permutations; a reordered subgraph is seen
 example : sortFlag [[1, 2], [3, 4]] [[1, 2], [4, 3]] = true := by decide
 example : sortFlag [[1, 2], [3, 4]] [[1, 2], [3, 4]] = false := by decide
+
+-- RemoveUnusedNodes: an unsorted graph needs two modifying rounds (the measure bound is not trivial)
+def exDce : Dce.St := ⟨[⟨0, [some 11], [10]⟩, ⟨1, [some 0, none], [11]⟩, ⟨2, [some 0], [12]⟩], [12], [0], [5]⟩
+example : (Dce.removeUnusedNodes exDce).2 = true ∧
+    (Dce.removeUnusedNodes (Dce.removeUnusedNodes exDce).1).2 = true ∧
+    (Dce.removeUnusedNodes (Dce.removeUnusedNodes (Dce.removeUnusedNodes exDce).1).1).2 = false := by
+  decide
 
 -- RemoveInitializersFromInputs: the rewrite fires
 example : InitInputs.removeInitializersFromInputs [⟨[1, 2, 3, 2], [2, 5]⟩] = ([⟨[1, 3], [2, 5]⟩], true) := by
